@@ -100,15 +100,34 @@ fn base_states() -> Vec<Element<String>> {
 
 const FOLLOW_UPS: &[&str] = &["<a/>", "<b><c/></b>", "<n><z/></n>", "<b/><a x=\"1\"><a/></a>"];
 
+/// option values nobody would choose on purpose (rendering must still return)
+fn odd_option_tuples() -> Vec<Options> {
+    let mk = |text: &str, prefix: &str, derive: &str, sorted: bool| Options {
+        text_identifier: text.to_string(),
+        attribute_prefix: prefix.to_string(),
+        derive: derive.to_string(),
+        sort: if sorted { SortBy::XmlName } else { SortBy::Unsorted },
+    };
+    vec![
+        mk("", "", "#[derive(", false),
+        mk("\u{20ac}", "\u{20ac}", "#[derive(\u{20ac}", true),
+        mk("$", "@", "#[derive()]", false),
+        mk("\"", "\\", ")]", true),
+        mk("text", "text", "\u{e9}", false),
+        mk(" ", " ", ",", true),
+    ]
+}
+
 struct Exerciser {
     cfgs: Vec<RCfg>,
     opts: Vec<Options>,
+    odd_opts: Vec<Options>,
     bases: Vec<Element<String>>,
 }
 
 impl Exerciser {
     fn new(tier: Tier) -> Exerciser {
-        Exerciser { cfgs: reader_configs(tier), opts: option_tuples(), bases: base_states() }
+        Exerciser { cfgs: reader_configs(tier), opts: option_tuples(), odd_opts: odd_option_tuples(), bases: base_states() }
     }
 
     /// non-initial states: every value the input produced is extended once more by each follow-up
@@ -147,6 +166,12 @@ impl Exerciser {
                         }
                     }
                     if ci == 0 {
+                        for o in &self.odd_opts {
+                            calls += 1;
+                            if let Err(p) = subject::guarded(|| el.to_serde_struct(o)) {
+                                panics.push(format!("to_serde_struct with options {:?}: {}", (&o.text_identifier, &o.attribute_prefix, &o.derive), p));
+                            }
+                        }
                         calls += self.follow_ups(&el, cfg, "into_struct", &mut panics);
                     }
                 }
